@@ -98,6 +98,8 @@ def oracles(rec):
             maxlive = max(maxlive, live)
         elif e["k"] in ("WExit", "WDie"):
             live -= 1
+    if cfg["n"] > 0 and N != cfg["n"]:
+        bad("C03", "the scheduler was configured with Concurrency %d and runs with %d workers: the configured limit is not the capacity" % (cfg["n"], N))
     if cfg["n"] == 0 and N != max(cfg["gomaxprocs"], 4):
         bad("C03", "default concurrency is %d under GOMAXPROCS=%d, expected max(GOMAXPROCS,4)" % (N, cfg["gomaxprocs"]))
     nstart = len([e for e in ev if e["k"] == "WStart"])
@@ -116,6 +118,10 @@ def oracles(rec):
     tdeps = transitive_deps(jobs)
     if not ret:
         bad("C05", "Wait did not return")
+    if ret and ret[0]["k"] == "CWaitRetCtx" and werr != ["C0"]:
+        # Wait left through its context arm: what it returns is that context's error, nothing else
+        for p in ("C07", "C09"):
+            bad(p, "Wait returned %s after its context was done; the context's error is C0" % (werr or "nil"))
     for p in ("C07", "C08"):
         if p == "C07" and cfg["coe"]:
             continue
